@@ -30,7 +30,7 @@ CASES = {"quick": 600, "thorough": 20000}
 MIN_CASES = {"quick": 150, "thorough": 1500}
 MIN_COUNTERS = {"quick": {"returned": 80}, "thorough": {"returned": 600}}
 REQUIRED_CLASSES = ["clash", "synthetic_mirror"]
-REQUIRED_COUNTERS = ["synthetic_extractions_judged", "returned", "iterations_judged_by_contract", "final_returns_judged", "cells_checked", "hard_modules_checked", "fixed_modules_checked"]
+REQUIRED_COUNTERS = ["synthetic_extractions_judged", "returned", "iterations_judged_by_contract", "final_returns_judged", "cells_checked", "hard_modules_checked", "fixed_modules_checked", "staircase_hard_modules_checked"]
 SOFT_DEADLINE = {"quick": 240, "thorough": 3300}
 WATCHDOG = {"quick": 900, "thorough": 7200}
 
@@ -192,6 +192,11 @@ def generate(rng, tier, i):
                 rects.append(geo.cwh(xs[i0], (xs[i0] + xs[i0 + 1]) / 2, ys[j0 + 1], (ys[j0 + 1] + ys[j0 + 2]) / 2 if False else ys[j0 + 1] + (ys[j0 + 2] - ys[j0 + 1]) / 2))
             if rng.random() < 0.3 and i0 + 2 <= d["nx"]:
                 rects.append(geo.cwh(xs[i0 + 1], xs[i0 + 1] + (xs[i0 + 2] - xs[i0 + 1]) / 2, ys[j0], (ys[j0] + ys[j0 + 1]) / 2))
+            if rng.random() < 0.25 and j0 + 2 <= d["ny"] and i0 + 2 <= d["nx"]:
+                # a staircase (Z) of two rectangles: rigid all the same, although it is not a single-trunk orthogon
+                xm = (xs[i0] + xs[i0 + 1]) / 2
+                rects = [rects[0], geo.cwh(xm, xm + (xs[i0 + 1] - xs[i0]), ys[j0 + 1], ys[j0 + 1] + (ys[j0 + 2] - ys[j0 + 1]) / 2)]
+                kind = "stair"
             # shrink hard rectangles so that they take a fraction of the budget
             sc = rng.choice([0.5, 0.6, 0.8])
             cx0, cy0 = rects[0][0], rects[0][1]
@@ -201,6 +206,9 @@ def generate(rng, tier, i):
             if a > budget:
                 continue
             budget -= a
+            if kind == "stair":
+                mods[f"Z{k}"] = {"hard": True, "rectangles": rects}
+                continue
             mods[f"H{k}"] = {"hard": True, "rectangles": rects}
             if kind == "flip":
                 mods[f"H{k}"]["flip"] = True
@@ -292,6 +300,8 @@ def judge(ctx, snap, before, W, H, what, where):
                     ctx.violation("fixed_cell_not_owned", f"{where}: cell of fixed module {name} has map {amap} :: {what}")
         else:
             ctx.count("hard_modules_checked")
+            if name.startswith("Z"):
+                ctx.count("staircase_hard_modules_checked")
             tol = 1e-6 * scale
             got = st["offs"]
             ok = False
